@@ -40,3 +40,293 @@ contract(CP + 'resolve_option_flag', props=['C05'],
                   ('false-means-no-columns', 'not (flag is False) or result == []'),
                   ('list-is-used-as-given', 'not isinstance(flag, list) or result is flag'),
                   ('function-is-applied-to-the-frame', 'not callable(flag) or result is fn_result()')])
+
+
+# ---------------------------------------------------------------------------
+# check_dataframe: the verdict skeleton (C05)
+#
+# A frame is seen through its column list (concrete, from a finite family of
+# layouts), a symbolic row count, per-column dtype objects, and the sub-frames
+# / filtered frames derived from it.  What the pandas primitives compute from
+# the cells is abstracted to three uninterpreted quantities: types_match per
+# column (laws checked exhaustively by the bounded layer), the row counts
+# after the condition, and the number of differing cells returned by
+# same_structure_ddiff.  The verdict is then a function of those quantities
+# and of the four option flags, and that function is what the property
+# states.
+# ---------------------------------------------------------------------------
+import z3
+from pyvc.contracts import Contract, REGISTRY
+from pyvc.sym import SBool, SInt
+from pyvc.ops import PyExc, zbool
+
+BCMP = 'tdda/referencetest/basecomparison.py::'
+
+REF_COLS = ['a', 'b', 'c']
+DF_LAYOUTS = [['a', 'b', 'c'], ['a', 'c', 'b'], ['b', 'a', 'c'], ['c', 'b', 'a'], ['a', 'b'], ['c', 'a'],
+              ['a', 'b', 'c', 'd'], ['d', 'a', 'c', 'b'], ['a', 'd', 'b']]
+
+
+def mkframe(it, name, cols, base=None):
+    cols = list(cols)
+    n = it.fresh(T.nat, 'rows(%s)' % name)
+    f = SObj('DataFrame', {'__iter__': cols, '__contains__': (lambda x: x in cols), '__len__': n,
+                           '__open__': False, 'frame_name': name, 'base': base or name}, label=name)
+
+    def getitem(it2, self, k):
+        if isinstance(k, str):
+            if k not in cols:
+                raise PyExc('KeyError', k)
+            return SObj('Series', {'dtype': SObj('dtype', {'col': k, 'frame': name, '__open__': False}),
+                                   '__open__': False})
+        if isinstance(k, list):
+            for c in k:
+                if c not in cols:
+                    raise PyExc('KeyError', c)
+            sub = mkframe(it2, '%s[%s]' % (name, ','.join(k)), k, base=self.attrs['base'])
+            sub.attrs['__len__'] = self.attrs['__len__']
+            return sub
+        if isinstance(k, SObj) and k.cls == 'mask':
+            if k.attrs['frame'] != name:
+                raise PyExc('IndexingError', 'mask of another frame')
+            return mkframe(it2, name + '|cond', cols)
+        raise Unsupported('frame subscript %r' % (k,))
+    f.methods['__getitem__'] = Builtin(getitem, 'DataFrame.__getitem__')
+    f.methods['sort_values'] = Builtin(lambda it2, self, by, **kw: it2.ghost.setdefault('sorted', []).append(
+        (self.attrs['frame_name'], list(by))), 'sort_values')
+    f.methods['reindex'] = Builtin(lambda it2, self: self, 'reindex')
+    it.ghost.setdefault('frames', {})[name] = f
+    return f
+
+
+def _flag(values, fn_results=()):
+    alts = [T.const(v) for v in values]
+    for r in fn_results:
+        alts.append(T.custom(lambda it, name, r=r: _flagfn(it, name, r)))
+    return T.union(*alts)
+
+
+def _flagfn(it, name, ret):
+    f = Builtin(lambda it2, df: list(ret), 'flagfn:' + name)
+    it.ghost.setdefault('flagfn', {})[name] = list(ret)
+    return f
+
+
+def _cd_entry(it, senv):
+    layouts = it.target.layouts
+    k = it.path.choose([True] * len(layouts))
+    senv['df'] = mkframe(it, 'df', layouts[k])
+    senv['ref_df'] = mkframe(it, 'ref', REF_COLS)
+    cond = senv.get('condition')
+    it.path.inputs['df'], it.path.inputs['ref_df'] = senv['df'], senv['ref_df']
+    it.ghost['tm'] = {}
+    it.spec_env['Diffs'] = Builtin(lambda it2: SObj('Diffs', {'__open__': True}))
+    it.spec_env['FailureDiffs'] = Builtin(lambda it2, failures=None, diffs=None:
+                                          SObj('FailureDiffs', {'failures': failures, 'diffs': diffs,
+                                                                '__open__': False}))
+
+
+def _types_match_effect(it, env):
+    a, b = env['actual_col_type'], env['ref_col_type']
+    if not (isinstance(a, SObj) and isinstance(b, SObj) and a.attrs.get('frame') == 'df'
+            and b.attrs.get('frame') == 'ref' and a.attrs['col'] == b.attrs['col']):
+        it.ghost['tm_misuse'] = True
+        return it.fresh(T.bool, 'types_match(?)')
+    c = a.attrs['col']
+    tm = it.ghost['tm']
+    if c not in tm:
+        tm[c] = SBool(z3.Bool('types_match(%s)' % c))
+    it.ghost.setdefault('tm_level', []).append(env.get('level'))
+    return tm[c]
+
+
+def _ddiff_effect(it, env):
+    it.ghost.setdefault('ddiff', []).append((env['df'], env['ref_df']))
+    return it.ghost.setdefault('nd', it.fresh(T.nat, 'differing_cells'))
+
+
+def _register_callees():
+    CPC = CP + 'PandasComparison.'
+    tm = Contract(CP + 'types_match', params=dict(actual_col_type=None, ref_col_type=None, level=None),
+                  effects=_types_match_effect, result=T.none, assumed=True, name='types_match',
+                  trusted_note='types_match is an uninterpreted predicate of the two dtypes here; its laws are '
+                               'checked exhaustively over every dtype name pair by the bounded layer')
+    tm.defaults = {'level': None}
+    REGISTRY[tm.ident] = tm
+    dd = Contract(CPC + 'same_structure_ddiff', params=dict(df=None, ref_df=None, diffs=None),
+                  effects=_ddiff_effect, result=T.none, assumed=True, name='same_structure_ddiff',
+                  trusted_note='same_structure_ddiff returns the number of differing cells of the two frames it is '
+                               'given (audited against an independent cell oracle by the bounded layer)')
+    REGISTRY[dd.ident] = dd
+    rc = Contract(CP + 'replace_cats', params=dict(df=None), effects=lambda it, env: env['df'], result=T.none,
+                  assumed=True, name='replace_cats',
+                  trusted_note='replace_cats keeps columns, their order and the rows (categoricals become strings)')
+    REGISTRY[rc.ident] = rc
+    for m, ps in (('different_column_structure', ['diffs']), ('missing_columns_detected', ['diffs', 'missing_cols', 'ref_df']),
+                  ('extra_columns_found', ['diffs', 'extra_cols', 'df']),
+                  ('field_types_differ', ['diffs', 'c', 'actual_dtype', 'ref_dtype']),
+                  ('different_column_orders', ['diffs', 'df', 'ref_df']),
+                  ('different_numbers_of_rows', ['diffs', 'na', 'nr']), ('info', ['msgs', 's'])):
+        ident = BCMP + 'BaseComparison.' + m
+        if ident not in REGISTRY:
+            c = Contract(ident, params={p: None for p in ps}, effects=lambda it, env: None, result=T.none,
+                         assumed=True, name=m, trusted_note='message builders: they only append to the Diffs object')
+            c.varargs_ok = True
+            REGISTRY[ident] = c
+    wt = Contract(CPC + 'write_temporaries', params=dict(actual=None, expected=None, msgs=None),
+                  effects=lambda it, env: it.ghost.__setitem__('temporaries', True), result=T.none, assumed=True,
+                  name='write_temporaries', trusted_note='write_temporaries writes under tmp_dir only (C15 checks)')
+    REGISTRY[wt.ident] = wt
+
+
+_register_callees()
+
+
+def _cmp_view(it):
+    from pyvc import extract
+    mod = extract.load_module('tdda/referencetest/checkpandas.py')
+    o = SObj('PandasComparison', {'verbose': False, 'print_fn': Builtin(lambda it2, *a, **k: None, 'print_fn')},
+             label='self')
+    o.repo_class = mod.classes['PandasComparison']
+    return o
+
+
+def _resolve(it, flag, name, cols):
+    """The documented meaning of an option flag (spec side)."""
+    if flag is None or flag is True:
+        return list(cols)
+    if flag is False:
+        return []
+    if isinstance(flag, list):
+        return list(flag)
+    return list(it.ghost['flagfn'][name])
+
+
+def _sel(it, env):
+    dfc = list(it.ghost['frames']['df'].attrs['__iter__'])
+    refc = list(REF_COLS)
+    types = _resolve(it, env['check_types'], 'check_types', refc)
+    extra = _resolve(it, env['check_extra_cols'], 'check_extra_cols', dfc)
+    data = _resolve(it, env['check_data'], 'check_data', refc)
+    co = env['check_order']
+    order = None if co is False else _resolve(it, co, 'check_order', refc)
+    return dfc, refc, types, extra, data, order
+
+
+@specfn
+def frames_agree(it, check_types, check_extra_cols, check_order, check_data, condition):
+    """The property's right-hand side, over the abstract quantities."""
+    env = dict(check_types=check_types, check_extra_cols=check_extra_cols, check_order=check_order,
+               check_data=check_data)
+    dfc, refc, types, extra, data, order = _sel(it, env)
+    missing = [c for c in types if c not in dfc]
+    if missing:
+        return False
+    if [c for c in extra if c not in refc]:
+        return False
+    if order is not None:
+        o1 = [c for c in dfc if c in order and c in refc]
+        o2 = [c for c in refc if c in order and c in dfc]
+        if o1 != o2:
+            return False
+    conj = []
+    for c in types:
+        if c not in it.ghost['tm']:
+            it.ghost['tm'][c] = SBool(z3.Bool('types_match(%s)' % c))
+        conj.append(it.ghost['tm'][c].z)
+    fr = it.ghost['frames']
+    suffix = '|cond' if condition is not None else ''
+    if 'df' + suffix not in fr or 'ref' + suffix not in fr:
+        return False if False else SBool(z3.BoolVal(False))     # the condition was not applied to both frames
+    conj.append(fr['df' + suffix].attrs['__len__'].z == fr['ref' + suffix].attrs['__len__'].z)
+    if data:
+        nd = it.ghost.setdefault('nd', it.fresh(T.nat, 'differing_cells'))
+        conj.append(nd.z == 0)
+    return SBool(z3.And(*conj))
+
+
+@specfn
+def data_compared_as_selected(it, check_data, check_types, condition, result):
+    """When the cell comparison runs, it is given the selected data columns of the (filtered) frames."""
+    calls = it.ghost.get('ddiff', [])
+    env = dict(check_types=check_types, check_extra_cols=None, check_order=None, check_data=check_data)
+    dfc, refc, types, extra, data, order = _sel(it, env)
+    missing = [c for c in types if c not in dfc]
+    want = [c for c in data if c not in missing]
+    if not calls:
+        return True
+    if len(calls) != 1:
+        return False
+    a, b = calls[0]
+    suffix = '|cond' if condition is not None else ''
+    return (list(a.attrs['__iter__']) == want and list(b.attrs['__iter__']) == want
+            and a.attrs['base'] == 'df' + suffix and b.attrs['base'] == 'ref' + suffix)
+
+
+@specfn
+def data_cols_present(it, check_data, check_types):
+    env = dict(check_types=check_types, check_extra_cols=None, check_order=None, check_data=check_data)
+    dfc, refc, types, extra, data, order = _sel(it, env)
+    missing = [c for c in types if c not in dfc]
+    return all(c in dfc for c in data if c not in missing)
+
+
+@specfn
+def type_level_ok(it, type_matching):
+    want = type_matching or 'strict'
+    return all(l == want for l in it.ghost.get('tm_level', [])) and not it.ghost.get('tm_misuse')
+
+
+def _condfn(it, name):
+    return Builtin(lambda it2, df: SObj('mask', {'frame': df.attrs['frame_name'], '__open__': False}), 'condition')
+
+
+_CD_ENS = [('passes-exactly-when-the-checked-structure-and-values-agree',
+            '(result.failures == 0) == frames_agree(check_types, check_extra_cols, check_order, check_data, condition)'),
+           ('types-compared-at-the-requested-level', 'type_level_ok(type_matching)'),
+           ('failures-is-0-or-1', 'result.failures == 0 or result.failures == 1'),
+           ('cell-comparison-gets-the-selected-columns-of-the-filtered-frames',
+            'data_compared_as_selected(check_data, check_types, condition, result)')]
+
+
+def _cd_contract(key, layouts=None, **flags):
+    params = OrderedDict()
+    params['df'] = None
+    params['ref_df'] = None
+    params['actual_path'] = T.const(None)
+    params['expected_path'] = T.const(None)
+    params['check_data'] = flags.get('check_data', T.const(None))
+    params['check_types'] = flags.get('check_types', T.const(None))
+    params['check_order'] = flags.get('check_order', T.const(None))
+    params['check_extra_cols'] = flags.get('check_extra_cols', T.const(None))
+    params['sortby'] = flags.get('sortby', T.const(None))
+    params['condition'] = flags.get('condition', T.const(None))
+    params['precision'] = T.const(None)
+    params['msgs'] = T.const(None)
+    params['type_matching'] = flags.get('type_matching', T.const(None))
+    params['create_temporaries'] = flags.get('create_temporaries', T.const(False))
+    c = Contract(CP + 'PandasComparison.check_dataframe', props=['C05'], params=params, self_view=_cmp_view,
+                 on_entry=_cd_entry, inline=[CP + 'resolve_option_flag', 'tdda/utils.py::nvl'],
+                 spec_env=dict(PRIMS, frames_agree=frames_agree, data_compared_as_selected=data_compared_as_selected,
+                               data_cols_present=data_cols_present, type_level_ok=type_level_ok),
+                 allow_raise={'KeyError': 'not data_cols_present(check_data, check_types)'},
+                 ensures=_CD_ENS, name='check_dataframe[%s]' % key, max_paths=200000)
+    c.layouts = layouts or DF_LAYOUTS
+    REGISTRY[c.ident + '#' + key] = c
+    return c
+
+
+from collections import OrderedDict
+_ORDER_FLAGS = _flag([None, False, True, ['a', 'c'], ['c', 'a'], ['c', 'b', 'a'], ['b']], [['c', 'a'], ['a', 'b', 'c']])
+_TYPE_FLAGS = _flag([None, False, ['a', 'b'], ['c', 'a']], [['b']])
+_EXTRA_FLAGS = _flag([None, False, ['d'], ['a']], [['d', 'a']])
+_DATA_FLAGS = _flag([None, False, ['a'], ['c', 'a']], [['b']])
+_COND = T.union(T.const(None), T.custom(_condfn))
+
+_cd_contract('order', check_order=_ORDER_FLAGS, check_types=_flag([None, False]), check_extra_cols=_flag([None, False]))
+_cd_contract('columns', check_types=_TYPE_FLAGS, check_extra_cols=_EXTRA_FLAGS, check_order=_flag([None, False]))
+_cd_contract('level', layouts=[['a', 'b', 'c'], ['a', 'b']], type_matching=_flag([None, 'strict', 'medium', 'permissive']),
+             check_types=_flag([None, ['a']]))
+_cd_contract('data', layouts=[['a', 'b', 'c'], ['c', 'b', 'a'], ['a', 'b'], ['a', 'b', 'c', 'd']],
+             check_data=_DATA_FLAGS, check_types=_flag([None, ['a', 'b']]), condition=_COND,
+             sortby=_flag([None, ['a']]), check_order=_flag([False]), create_temporaries=T.bool)
